@@ -358,6 +358,7 @@ pub fn run_check<P: Prop>(p: &P, tier: Tier) -> i32 {
     let mut new_violations = 0u64;
     let mut known_hits: BTreeMap<String, u64> = BTreeMap::new();
     let mut replay_paths = vec![];
+    let t_report = std::time::Instant::now();
     for (idx, v) in &a.violations {
         if let Some(f) = findings
             .findings
@@ -379,8 +380,10 @@ pub fn run_check<P: Prop>(p: &P, tier: Tier) -> i32 {
         }
         seen_keys.push(v.key.clone());
         new_violations += 1;
-        if new_violations > 40 {
-            continue; // bound the work; all are counted
+        // bound the work (all violations are counted): at most 40 replay files, and no further
+        // ones once reporting has taken 5 minutes (each file costs a traced re-execution)
+        if new_violations > 40 || (new_violations > 1 && t_report.elapsed().as_secs() > 300) {
+            continue;
         }
         // the first few distinct violations are minimised; the rest are written as they are
         let path = report_violation(p, seed, *idx, v, tier, &mut ctx, new_violations <= 8);
